@@ -17,6 +17,12 @@ class JaxPrinter(GotranPythonCodePrinter):
 
 
 class JaxCodeGenerator(PythonCodeGenerator):
+    reserved_names = PythonCodeGenerator.reserved_names | {"jax"}
+
+    def is_reserved_name(self, name: str) -> bool:
+        # The values are first assigned to _values_0, _values_1, ...
+        return super().is_reserved_name(name) or name.startswith("_values_")
+
     def __init__(self, *args, **kwargs) -> None:
         super().__init__(*args, **kwargs)
 
